@@ -33,6 +33,9 @@ var pagerFamilies = []pagerFamily{
 	{"file-dash", func(b string, k int) string { return fmt.Sprintf("%s/news/story-%d.html", b, k) }},
 	{"two-numbers", func(b string, k int) string { return fmt.Sprintf("%s/zine/%d/piece-%d", b, (k+1)/2, k) }},
 	{"query-multi", func(b string, k int) string { return fmt.Sprintf("%s/list?cat=%d&page=%d&sort=%d", b, 1+k%2, k, 2) }},
+	// escaped reserved characters in the path: unescaping them changes the URL ("%25" -> "%", "%3F" -> "?")
+	{"escaped-percent", func(b string, k int) string { return fmt.Sprintf("%s/a/100%%25/page/%d", b, k) }},
+	{"escaped-qmark", func(b string, k int) string { return fmt.Sprintf("%s/a/what%%3Fx/page/%d", b, k) }},
 	// a percent-escaped path segment (the page URL then has two spellings inside the library)
 	{"escaped-dir", func(b string, k int) string {
 		if k <= 1 {
